@@ -2608,6 +2608,15 @@ impl DnsIncoming {
             };
         }
 
+        // Names are kept as dotted text and re-split at the dots when they are sent again
+        // (e.g. in a follow-up query); labels that would then exceed 63 bytes (a label
+        // ending in a backslash merges with the next one) cannot be encoded: reject them.
+        if !name_labels_fit(&name) {
+            return Err(Error::Msg(format!(
+                "read_name: name {name} cannot be re-encoded (label too long)"
+            )));
+        }
+
         Ok(name)
     }
 }
